@@ -29,7 +29,8 @@ The Model lays the forest out at synthetic offsets (unit header 11 bytes, root D
 other DIE 8 bytes): only the order of offsets, the unit bounds and "is this the start of a DIE"
 matter to the code under test.
 
-`flt-split …` (same arguments, `nunits` = 1): the forest is the split unit of a skeleton unit and is
+`flt-split …` (same arguments, `nunits` ≥ 1): the forest is the split `.debug_info` section of a skeleton
+unit (the first unit is the split compilation unit, further units may follow); it is
 filtered with `FilterUnitSection::new_split` and converted with `convert_split_with_filter`.
 
 Reply: `ok <unit>/<unit>/…` with `<unit>` = `,`-separated `id^parent` (parent id or `R`) of the
@@ -123,7 +124,8 @@ def parseOps (l : Layout) (u : Nat) (s : String) : Option (List OpRef) :=
 def parseLoc (l : Layout) (u : Nat) (s : String) : Option (Bool × List OpRef) :=
   match s.toList with
   | k :: r => do
-    let vis ← (match k with | 'n' => some true | 'z' | 'i' | 't' => some false | _ => none)
+    -- the flag: does the converted list keep the entry (only an empty range is dropped)?
+    let vis ← (match k with | 'n' | 'i' | 't' => some true | 'z' => some false | _ => none)
     let ops ← parseOps l u (String.ofList r)
     some (vis, ops)
   | [] => none
@@ -210,6 +212,7 @@ def renderUnit (f : Forest) (es : List (Off × Option Off)) : String :=
 def render (f : Forest) : Outcome → String
   | .converted _ us => "ok " ++ "/".intercalate (us.map (renderUnit f))
   | .convErr e => "err " ++ e.name
+  | .writeErr => "err W.InvalidReference"
   | .panic w => "panic " ++ w
   | .diverge => "diverge"
 
@@ -243,7 +246,7 @@ def handle (op : String) (args : List String) : Option String :=
     let ver ← ver.toNat?; let _ ← format? fmt; let asz ← asz.toNat?
     let nunits ← nunits.toNat?
     if !okParams ver asz nunits entries then none
-    if nunits != 1 then none
+    if nunits == 0 then none
     let res ← (if entries == "-" then some [] else (entries.splitOn ";").mapM parseREntry)
     let req ← parseIds required
     let f ← build nunits res req
